@@ -5,7 +5,8 @@ import gens
 MODEL_FILES = [
     "Params.v", "Base/Res.v", "Base/ListX.v", "Spec.v",
     "Base/Bits.v", "Base/Word.v", "Vec/MaskRep.v", "Mem/Bytewise.v", "Mem/Generic.v", "Mem/Swar.v", "Mem/Wrappers.v", "Mem/Iter.v",
-    "Sub/IsEqual.v", "Sub/Pair.v",
+    "Sub/IsEqual.v", "Sub/Pair.v", "Sub/RabinKarp.v", "Sub/ShiftOr.v", "Sub/PackedPair.v", "Sub/Prefilter.v",
+    "Sub/TwoWay.v", "Sub/TwoWayCert.v", "Sub/Searcher.v", "Sub/FindIter.v",
 ]
 
 TRUSTED_BASE = [
@@ -86,3 +87,27 @@ PROPS["C07"]["coq_files"] = MEM_PROOF_FILES + ["Mem/IterProofs.v", "Props/C07.v"
 PROPS["C07"]["gen"] = gens.gen_c07
 PROPS["C07"]["oracle"] = gens.oracle_c07
 PROPS["C07"]["nontrivial"] = gens.nontrivial_c07
+
+SUB_TRUSTED = MEM_TRUSTED + ["u32/u16 wrap-around of the Rabin-Karp hash and Shift-Or masks is written explicitly (mod 2^32, mod 2^16) in the model"]
+SUB_ASSUME = ["needle and haystack bytes are < 256", "the hooks report every raw load and loop step of the substring building blocks"]
+
+PROPS["C12"] = dict(
+    id="C12", coq_files=["SpecProofs.v", "Sub/IsEqualProofs.v", "Sub/RabinKarpProofs.v", "Sub/ShiftOrProofs.v", "Sub/PackedPairProofs.v", "Props/C12.v"],
+    gen=gens.gen_c12, oracle=gens.oracle_blocks, nontrivial=gens.nontrivial_blocks,
+    shrink_fields=["h"], builds=["debug", "release"],
+    rule="Rabin-Karp fwd/rev and Shift-Or on all needles <= 4 (6 thorough) x haystacks <= 8 (11) over {a,b} (and {a,b,c} thorough), structured needles "
+         "(u^k, u^k v, Fibonacci, Thue-Morse, single letters, bytes equal mod 64) against haystacks built from their own factors, constructed "
+         "hash collisions (2*b0+b1 equal; needles > 32 bytes whose early bytes are shifted out of the u32 hash), 15/16-byte Shift-Or needles; "
+         "packed-pair find (sse2, avx2) over needles x index pairs x haystack lengths around min_haystack_len x occurrence positions; "
+         "non-trivial = needle >= 2 bytes and haystack >= 4 bytes",
+    assumptions=SUB_ASSUME, trusted=SUB_TRUSTED,
+)
+PROPS["C11"] = dict(
+    id="C11", coq_files=["SpecProofs.v", "Sub/IsEqualProofs.v", "Sub/PackedPairProofs.v", "Props/C11.v"],
+    gen=gens.gen_c11, oracle=gens.oracle_blocks, nontrivial=gens.nontrivial_blocks,
+    shrink_fields=["h"], builds=["debug", "release"],
+    rule="find_prefilter of the sse2 and avx2 packed-pair finders and of the portable finder: needles of 2..40 (300 thorough) bytes x valid and invalid "
+         "index pairs (index1 > index2, offsets up to 255) x haystack lengths from min_haystack_len-1 to +80 x first occurrence at every position "
+         "class (last overlapping chunk, final needle.len() bytes) with partial pair hits planted before it; non-trivial as C12",
+    assumptions=SUB_ASSUME, trusted=SUB_TRUSTED,
+)
